@@ -70,9 +70,9 @@ inductive VKind | color | dimension | value
 /-- one `Item` of `MediaQuery.seq` -/
 inductive QItem
   /-- default `toSeq`: `(token type, token value)`; only IDENT and the CHARs `( : )` occur -/
-  | tok (typ : TT) (val : Cps)
+  | tok (t : Tok)
   /-- `CSSComment(val)`, appended by `ProdParser.parse` itself (`prodparser.py:521-525`) -/
-  | comment (val : Cps)
+  | comment (t : Tok)
   /-- `ColorValue` / `DimensionValue` / `Value` built from one token (`value.py:951-1008,1077-1082`) -/
   | value (kind : VKind) (t : Tok)
   deriving DecidableEq, Repr
@@ -85,7 +85,7 @@ structure MQ where
 
 /-- one `Item` of `MediaList._seq` -/
 inductive LItem
-  | comment (val : Cps)
+  | comment (t : Tok)
   | query (q : MQ)
   deriving DecidableEq, Repr
 
@@ -162,31 +162,31 @@ def stepQ (partof : Bool) (st : QSt) (t : Tok) : StepRes :=
   | .start =>
     -- Choice: first alternative `[ONLY|NOT]? media_type …`, second `expression …`
     if t.typ = .ident ∧ isPrefixWord t.val then
-      .cont { st.emit .afterPrefix (.tok t.typ t.val) with notSimple := true }
+      .cont { st.emit .afterPrefix (.tok t) with notSimple := true }
     else if t.typ = .ident ∧ isMediaType t.val then
-      .cont { st.emit .afterType (.tok t.typ t.val) with mtype := some t.val, stopIf := partof || st.stopIf }
+      .cont { st.emit .afterType (.tok t) with mtype := some t.val, stopIf := partof || st.stopIf }
     else if charIs t cOpen then
-      if charOk then .cont (st.emit .afterOpen (.tok t.typ t.val)) else .unsupported
+      if charOk then .cont (st.emit .afterOpen (.tok t)) else .unsupported
     else .noMatch
   | .afterPrefix =>
     if t.typ = .ident ∧ isMediaType t.val then
-      .cont { st.emit .afterType (.tok t.typ t.val) with mtype := some t.val, stopIf := partof || st.stopIf }
+      .cont { st.emit .afterType (.tok t) with mtype := some t.val, stopIf := partof || st.stopIf }
     else .missing
   | .afterType =>
     if t.typ = .ident ∧ isAndWord t.val then
-      .cont { st.emit .afterAnd (.tok t.typ t.val) with notSimple := true }
+      .cont { st.emit .afterAnd (.tok t) with notSimple := true }
     else .noMatch
   | .afterAnd =>
     if charIs t cOpen then
-      if charOk then .cont (st.emit .afterOpen (.tok t.typ t.val)) else .unsupported
+      if charOk then .cont (st.emit .afterOpen (.tok t)) else .unsupported
     else .missing
   | .afterOpen =>
-    if t.typ = .ident then .cont (st.emit .afterFeature (.tok t.typ t.val)) else .missing
+    if t.typ = .ident then .cont (st.emit .afterFeature (.tok t)) else .missing
   | .afterFeature =>
     if charIs t cColon then
-      if charOk then .cont (st.emit .afterColon (.tok t.typ t.val)) else .unsupported
+      if charOk then .cont (st.emit .afterColon (.tok t)) else .unsupported
     else if charIs t cClose then
-      if charOk then .cont { st.emit .afterClose (.tok t.typ t.val) with stopIf := partof || st.stopIf }
+      if charOk then .cont { st.emit .afterClose (.tok t) with stopIf := partof || st.stopIf }
       else .unsupported
     else .missing
   | .afterColon =>
@@ -196,12 +196,12 @@ def stepQ (partof : Bool) (st : QSt) (t : Tok) : StepRes :=
     | none => .missing
   | .afterValue =>
     if charIs t cClose then
-      if charOk then .cont { st.emit .afterClose (.tok t.typ t.val) with stopIf := partof || st.stopIf }
+      if charOk then .cont { st.emit .afterClose (.tok t) with stopIf := partof || st.stopIf }
       else .unsupported
     else .missing
   | .afterClose =>
     if t.typ = .ident ∧ isAndWord t.val then
-      .cont { st.emit .afterAnd (.tok t.typ t.val) with notSimple := true }
+      .cont { st.emit .afterAnd (.tok t) with notSimple := true }
     else .noMatch
 
 /-- the end-of-input loop of `ProdParser.parse` (`prodparser.py:645-689`) on this grammar: all productions are
@@ -230,7 +230,7 @@ def parseQ : QSt → List Tok → POut MQ
   | st, [] => if st.s.accepting then .ok st.toMQ else .bad
   | st, t :: ts =>
     match t.typ with
-    | .comment => parseQ { st with items := .comment t.val :: st.items } ts
+    | .comment => parseQ { st with items := .comment t :: st.items } ts
     | .s => parseQ st ts
     | .invalid => .bad
     | .eof => .unsupported
@@ -285,8 +285,10 @@ def LSt.closeQuery (st : LSt) (q : QSt) : LSt :=
   { st with items := .query q.toMQ :: st.items, cur := none }
 
 /-- the whole list parse as one pass over the tokens. `fromText`: the tokens come from the module-level
-tokenizer on a string (stand-alone list) and not from a token list (`@media`, `@import`). -/
-def parseL (fromText : Bool) : LSt → List Tok → POut (List LItem)
+tokenizer on a string (stand-alone list) and not from a token list (`@media`, `@import`).
+`strict = false` is the code as it is; `strict = true` is the code with the proposed repair of known finding
+C17-missing-handback (a `Missing` error is an error also when `stopIfNoMoreMatch` is set). -/
+def parseL (strict fromText : Bool) : LSt → List Tok → POut (List LItem)
   | st, [] =>
     match st.cur with
     | some q =>
@@ -301,43 +303,43 @@ def parseL (fromText : Bool) : LSt → List Tok → POut (List LItem)
     match st.cur with
     | some q =>
       match t.typ with
-      | .comment => parseL fromText { st with cur := some { q with items := .comment t.val :: q.items } } ts
-      | .s => parseL fromText st ts
+      | .comment => parseL strict fromText { st with cur := some { q with items := .comment t :: q.items } } ts
+      | .s => parseL strict fromText st ts
       | .invalid => .bad
       | .eof => .unsupported
       | _ =>
         match stepQ true q t with
-        | .cont q' => parseL fromText { st with cur := some q' } ts
+        | .cont q' => parseL strict fromText { st with cur := some q' } ts
         | .unsupported => .unsupported
         | .noMatch =>
           if q.stopIf then
             -- savedTokens.append(token): the outer parser pops it next
             match listStep (st.closeQuery q) t with
-            | .ok st' => parseL fromText st' ts
+            | .ok st' => parseL strict fromText st' ts
             | .bad => .bad
             | .unsupported => .unsupported
           else .bad
         | .missing =>
-          if q.stopIf then
+          if q.stopIf && !strict then
             -- tokenizer.push(token); the query counts as well-formed (!)
             if fromText && !ts.isEmpty then
               match listStep (st.closeQuery q) t with
-              | .ok st' => parseL fromText st' ts
+              | .ok st' => parseL strict fromText st' ts
               | .bad => .bad
               | .unsupported => .unsupported
             else
               -- the pushed token is never read again
-              parseL fromText (st.closeQuery q) ts
+              parseL strict fromText (st.closeQuery q) ts
           else .bad
     | none =>
       match t.typ with
-      | .comment => parseL fromText { st with items := .comment t.val :: st.items } ts
-      | .s => parseL fromText st ts
+      | .comment => parseL strict fromText { st with items := .comment t :: st.items } ts
+      | .s => parseL strict fromText st ts
       | .invalid => .bad
       | .eof => .unsupported
       | _ =>
         match listStep st t with
-        | .ok st' => parseL fromText st' ts
+        | .ok st' => parseL strict fromText st' ts
         | .bad => .bad
         | .unsupported => .unsupported
 
@@ -385,7 +387,7 @@ def ML.length (m : ML) : Nat := (queries m.seq).length
 
 /-- `MediaList._setMediaText` (`medialist.py:77-152`); `raising` = `cssutils.log.raiseExceptions` -/
 def ML.setMediaText (m : ML) (raising fromText : Bool) (toks : List Tok) : ML × Outcome Unit :=
-  match parseL fromText {} toks with
+  match parseL false fromText {} toks with
   | .unsupported => (m, .unsupported)
   | .bad =>
     -- an error was reported inside the parse: raised before `_wellformed` is assigned, or only logged
@@ -409,21 +411,16 @@ def prepareSet (raising : Bool) (t : MediumText) : Outcome (Option MQ) :=
     | .bad => if raising then .raised .syntaxErr else .ret none
     | .unsupported => .unsupported
 
-/-- `del self._seq[i]` -/
-def eraseAt : List LItem → Nat → List LItem
-  | [], _ => []
-  | _ :: r, 0 => r
-  | a :: r, n + 1 => a :: eraseAt r n
-
-/-- index (among the *queries*) of the first query whose normalised type is `n` (`medialist.py:261-262`) -/
-def findType (n : Cps) : List MQ → Nat → Option Nat
-  | [], _ => none
-  | q :: r, i => if normalize q.mediaType == n then some i else findType n r (i + 1)
+/-- index (among the *queries*) of the first query whose normalised type is `n`
+(`for i, mq in enumerate(self): if normalize(mq.value.mediaType) == oldMedium`, `medialist.py:261-262`) -/
+def findType (n : Cps) : List MQ → Option Nat
+  | [] => none
+  | q :: r => if normalize q.mediaType == n then some 0 else (findType n r).map (· + 1)
 
 /-- `deleteMedium` (`medialist.py:247-268`): `del self[i]` indexes `_seq`, comments included -/
 def ML.deleteMedium (m : ML) (raising : Bool) (old : Cps) : ML × Outcome Unit :=
-  match findType (normalize old) (queries m.seq) 0 with
-  | some i => ({ m with seq := eraseAt m.seq i }, .ret ())
+  match findType (normalize old) (queries m.seq) with
+  | some i => ({ m with seq := m.seq.eraseIdx i }, .ret ())   -- `del self._seq[i]`
   | none => (m, if raising then .raised .notFound else .ret ())
 
 /-- `appendMedium` (`medialist.py:191-241`); returns the Python return value -/
@@ -449,19 +446,17 @@ def pyIndex (n : Nat) (i : Int) : Option Nat :=
   if 0 ≤ i then (if i.toNat < n then some i.toNat else none)
   else if (-i).toNat ≤ n then some (n - (-i).toNat) else none
 
-def setAt : List LItem → Nat → LItem → List LItem
-  | [], _, _ => []
-  | _ :: r, 0, x => x :: r
-  | a :: r, n + 1, x => a :: setAt r n x
+/-- `'all' == newmt or (newmt and newmt == normalize(item.value.mediaType))` (`medialist.py:185-188`) -/
+def sameMedium (newmt : Cps) (q : MQ) : Bool :=
+  isAllType newmt || (!newmt.isEmpty && newmt == normalize q.mediaType)
 
 /-- the `for i in reversed(range(len(self._seq)))` loop of `__setitem__` (`medialist.py:182-189`) as a filter:
-position `keep` is the new item itself -/
+position `keep` is the new item itself (`item is not newitem`) -/
 def dropSame (newmt : Cps) : List LItem → Nat → Nat → List LItem
   | [], _, _ => []
   | .comment c :: r, j, keep => .comment c :: dropSame newmt r (j + 1) keep
   | .query q :: r, j, keep =>
-    if j ≠ keep ∧ (isAllType newmt ∨ (!newmt.isEmpty ∧ newmt == normalize q.mediaType)) then
-      dropSame newmt r (j + 1) keep
+    if j != keep && sameMedium newmt q then dropSame newmt r (j + 1) keep
     else .query q :: dropSame newmt r (j + 1) keep
 
 /-- `__setitem__` (`medialist.py:170-189`) -/
@@ -473,7 +468,7 @@ def ML.setItem (m : ML) (raising : Bool) (index : Int) (t : MediumText) : ML × 
   | .ret (some q) =>
     match pyIndex m.seq.length index with
     | none => (m, .raised .indexError)
-    | some k => ({ m with seq := dropSame (normalize q.mediaType) (setAt m.seq k (.query q)) 0 k }, .ret ())
+    | some k => ({ m with seq := dropSame (normalize q.mediaType) (m.seq.set k (.query q)) 0 k }, .ret ())
 
 /-- `item(index)` (`medialist.py:270-278`): `self[index].mediaType`, `None` on IndexError -/
 def ML.item (m : ML) (index : Int) : Outcome (Option Cps) :=
@@ -540,8 +535,8 @@ def Out.appendObj (o : Out) (text : Cps) : Out := o.appendPost text
 def Out.value (o : Out) : Cps := (o.removeLastIfS.reverse).flatten
 
 def QItem.render (o : Out) : QItem → Out
-  | .tok _ v => o.appendStr v
-  | .comment v => o.appendObj v
+  | .tok t => o.appendStr t.val
+  | .comment t => o.appendObj t.val
   | .value _ t => o.appendObj t.text
 
 /-- `do_stylesheets_mediaquery` for a well-formed query -/
@@ -549,7 +544,7 @@ def MQ.text (q : MQ) : Cps := Out.value (q.items.foldl QItem.render [])
 
 def renderL : List LItem → Bool → Out → Out
   | [], _, o => o
-  | .comment c :: r, first, o => renderL r first (o.appendObj c)
+  | .comment c :: r, first, o => renderL r first (o.appendObj c.val)
   | .query q :: r, first, o =>
     let o := if first then o else o.appendStr cComma
     renderL r false (o.appendObj q.text)
@@ -561,8 +556,8 @@ def ML.mediaText (m : ML) : Cps :=
 /-! ## Token-level serialisation: the tokens `mediaText` consists of, S left out -/
 
 def QItem.toTok : QItem → Tok
-  | .tok t v => { typ := t, val := v }
-  | .comment v => { typ := .comment, val := v }
+  | .tok t => t
+  | .comment t => t
   | .value _ t => t
 
 def MQ.toks (q : MQ) : List Tok := q.items.map QItem.toTok
@@ -571,7 +566,7 @@ def commaTok : Tok := { typ := .char, val := cComma }
 
 def toksL : List LItem → Bool → List Tok
   | [], _ => []
-  | .comment c :: r, first => { typ := .comment, val := c } :: toksL r first
+  | .comment c :: r, first => c :: toksL r first
   | .query q :: r, first => (if first then [] else [commaTok]) ++ q.toks ++ toksL r false
 
 def ML.toks (m : ML) : List Tok :=
